@@ -10,6 +10,12 @@ func runExtraEngine(eng *Engine, spec, prop, tier string, seed int, verif, repo 
 		return eng.effectsEntropy(props), nil, nil
 	case "effects:no-recover":
 		return eng.effectsNoRecover(props), nil, nil
+	case "effects:frames":
+		return eng.effectsFrames(props), nil, nil
+	case "effects:globals":
+		return eng.effectsGlobals(props), nil, nil
+	case "effects:secrecy":
+		return eng.secrecy(props), nil, nil
 	}
 	return nil, nil, fmt.Errorf("unknown engine %q", spec)
 }
